@@ -13,7 +13,7 @@ def prePub (t : Thr) : Prop := t.kind.isBegin = true ∧ t.stage ≤ 2
 
 structure TI (s : St) (t : Thr) : Prop where
   preLt : prePub t → s.lastIndex < t.kind.idx
-  haveDL : ∀ d, t.loc = .haveDL d → d + 1 ≤ s.lastIndex
+  haveDL : ∀ d, (t.loc = .haveDL d ∨ t.loc = .haveDH d) → d + 1 ≤ s.lastIndex
   cas : ∀ d, t.loc = .cas d → d + 1 ≤ s.lastIndex ∧ s.nCounted (d + 1) ≤ s.nDoneDec (d + 1)
   busy : inSec t → s.sectionBusy = true
 
@@ -107,6 +107,11 @@ theorem good_instr (c : WMCfg) (hc : c.countsFirst = true) (k : Kind) (st : Nat)
     match st with
     | 0 => simp at h; subst h; simp
     | n + 1 => simp at h
+  | adv =>
+    simp only [progOf] at h
+    match st with
+    | 0 => simp at h; subst h; simp
+    | n + 1 => simp at h
 
 end NoKV.Conc.WM
 
@@ -114,7 +119,7 @@ namespace NoKV.Conc.WM
 open NoKV.Conc
 
 theorem TI.setLoc {s : St} {t : Thr} (h : TI s t) (l : Loc)
-    (h1 : ∀ d, l = .haveDL d → d + 1 ≤ s.lastIndex)
+    (h1 : ∀ d, (l = .haveDL d ∨ l = .haveDH d) → d + 1 ≤ s.lastIndex)
     (h2 : ∀ d, l = .cas d → d + 1 ≤ s.lastIndex ∧ s.nCounted (d + 1) ≤ s.nDoneDec (d + 1)) :
     TI s { t with loc := l } :=
   ⟨h.preLt, h1, h2, h.busy⟩
@@ -161,14 +166,14 @@ theorem N.step_thr {c : WMCfg} (hc : c.countsFirst = true) {s s' : St} {tid : Na
         have hlt : s.lastIndex < i := hidx ▸ hT.preLt ⟨by simp [hk, Kind.isBegin], by omega⟩
         refine N.mk' (t' := nextInstr t) h ht (by simp [setThr]) oth_upd rfl (by simp [nextInstr]) h.le ?_ ?_ ?_ ?_ ?_
         · intro j hj
-          show (if i = 0 then s.cnt else upd s.cnt i (s.cnt i + 1)) j =
+          show (if i = 0 ∧ c.tracksZero = false then s.cnt else upd s.cnt i (s.cnt i + 1)) j =
             ((upd s.nCounted i (s.nCounted i + 1) j : Nat) : Int) - (s.nDoneDec j : Int)
-          by_cases hi0 : i = 0
-          · have : j ≠ i := by omega
-            simp only [hi0, if_true]
-            rw [upd_other _ _ _ _ (by omega)]
+          by_cases hi0 : i = 0 ∧ c.tracksZero = false
+          · have hji : j ≠ i := by have := hi0.1; omega
+            rw [if_pos hi0]
+            rw [upd_other _ _ _ _ hji]
             exact h.cntEq j hj
-          · simp only [hi0, if_false]
+          · rw [if_neg hi0]
             by_cases hji : j = i
             · subst hji; simp only [upd_same]; have := h.cntEq j hj; omega
             · rw [upd_other _ _ _ _ hji, upd_other _ _ _ _ hji]; exact h.cntEq j hj
@@ -196,13 +201,14 @@ theorem N.step_thr {c : WMCfg} (hc : c.countsFirst = true) {s s' : St} {tid : Na
         cases hs
         refine N.mk' (t' := nextInstr t) h ht (by simp [setThr]) oth_upd rfl (by simp [nextInstr]) h.le ?_ ?_ ?_ ?_ ?_
         · intro j hj
-          show (if i = 0 then s.cnt else upd s.cnt i (s.cnt i + -1)) j =
+          show (if i = 0 ∧ c.tracksZero = false then s.cnt else upd s.cnt i (s.cnt i + -1)) j =
             (s.nCounted j : Int) - ((upd s.nDoneDec i (s.nDoneDec i + 1) j : Nat) : Int)
-          by_cases hi0 : i = 0
-          · simp only [hi0, if_true]
-            rw [upd_other _ _ _ _ (by omega)]
+          by_cases hi0 : i = 0 ∧ c.tracksZero = false
+          · have hji : j ≠ i := by have := hi0.1; omega
+            rw [if_pos hi0]
+            rw [upd_other _ _ _ _ hji]
             exact h.cntEq j hj
-          · simp only [hi0, if_false]
+          · rw [if_neg hi0]
             by_cases hji : j = i
             · subst hji; simp only [upd_same]; have := h.cntEq j hj; omega
             · rw [upd_other _ _ _ _ hji, upd_other _ _ _ _ hji]; exact h.cntEq j hj
@@ -242,13 +248,24 @@ theorem N.step_thr {c : WMCfg} (hc : c.countsFirst = true) {s s' : St} {tid : Na
         split at hs <;> cases hs
         · exact N.localStep h ht rfl (by simp [nextInstr]) hT.next
         · rename_i hnot
-          exact N.localStep h ht rfl (Nat.le_refl _)
-            (hT.setLoc _ (fun d' hd' => by cases hd'; omega) (by simp))
+          refine N.localStep h ht rfl (Nat.le_refl _) (hT.setLoc _ ?_ ?_)
+          · intro d' hd'
+            have : d' = d := by
+              rcases hd' with hd' | hd' <;> (split at hd' <;> cases hd') <;> rfl
+            omega
+          · intro d' hd'; split at hd' <;> cases hd'
+      · rename_i d
+        -- holdsAtDone only: slot(d) loaded
+        have hdl := hT.haveDL d (Or.inl hl)
+        split at hs <;> cases hs
+        · exact N.localStep h ht rfl (by simp [nextInstr]) hT.next
+        · exact N.localStep h ht rfl (Nat.le_refl _)
+            (hT.setLoc _ (fun d' hd' => by rcases hd' with hd' | hd' <;> cases hd'; exact hdl) (by simp))
       · rename_i d
         split at hs <;> cases hs
         · exact N.localStep h ht rfl (by simp [nextInstr]) hT.next
         · rename_i hnot
-          have hdl := hT.haveDL d hl
+          have hdl := hT.haveDL d (Or.inr hl)
           refine N.localStep h ht rfl (Nat.le_refl _) (hT.setLoc _ (by simp) ?_)
           intro d' hd'
           cases hd'
@@ -292,6 +309,7 @@ theorem N.step_thr {c : WMCfg} (hc : c.countsFirst = true) {s s' : St} {tid : Na
       · split at hs <;> cases hs
         · exact N.localStep h ht rfl (by simp [nextInstr]) ⟨hT.next.preLt, hT.next.haveDL, hT.next.cas, hT.next.busy⟩
         · exact N.localStep h ht rfl (Nat.le_refl _) (hT.setLoc _ (by simp) (by simp))
+      · cases hs
       · cases hs
       · cases hs
       · cases hs
@@ -372,6 +390,16 @@ theorem N.preserved {c : WMCfg} (hc : c.countsFirst = true) {s s' : St} {a : Act
     · rename_i hcond
       cases hs
       have := N.spawn h tid (.wait i) s.sectionBusy hcond
+        ⟨fun ⟨a, _⟩ => by simp [Kind.isBegin] at a, by simp, by simp, fun ⟨a, _⟩ => by simp [Kind.isBegin] at a⟩
+        (fun j u hu su => (h.ti j u hu).busy su) (fun ⟨a, _⟩ => by simp [Kind.isBegin] at a)
+      exact this
+    · cases hs
+  | adv tid =>
+    simp only [WM.step] at hs
+    split at hs
+    · rename_i hcond
+      cases hs
+      have := N.spawn h tid .adv s.sectionBusy hcond
         ⟨fun ⟨a, _⟩ => by simp [Kind.isBegin] at a, by simp, by simp, fun ⟨a, _⟩ => by simp [Kind.isBegin] at a⟩
         (fun j u hu su => (h.ti j u hu).busy su) (fun ⟨a, _⟩ => by simp [Kind.isBegin] at a)
       exact this
